@@ -169,12 +169,13 @@ pub fn vector_mut_copy(vm: &mut Vm) -> Result<VCell, Error> {
     let to_vector = pop_vector(vm)?;
     let to_vector = to_vector.as_ref();
 
-    if at > to_vector.len() - 1 {
+    // `at` may equal the length of the target when nothing is copied
+    if at > to_vector.len() {
         return Err(InvalidVectorIndex(at, to_vector.len()));
     }
 
     match (start, end) {
-        (Some(start), _) if start > from_vector.len() - 1 => {
+        (Some(start), _) if start > from_vector.len() => {
             return Err(InvalidVectorIndex(start, from_vector.len()));
         }
         (_, Some(end)) if end > from_vector.len() => {
@@ -189,13 +190,16 @@ pub fn vector_mut_copy(vm: &mut Vm) -> Result<VCell, Error> {
     let start = start.unwrap_or(0);
     let end = end.unwrap_or_else(|| from_vector.len());
 
-    if ((end - start) > to_vector.len()) || (at + end) > to_vector.len() {
+    if (end - start) > (to_vector.len() - at) {
         return Err(InvalidSyntax("vector-copy!: to vector is too small".into()));
     }
 
-    for i in start..end {
-        let val = from_vector.get(i).unwrap();
-        to_vector.put(i + at, val);
+    // read the source range first: the two vectors may be the same object
+    let source = (start..end)
+        .map(|it| from_vector.get(it).unwrap())
+        .collect::<Vec<_>>();
+    for (offset, val) in source.into_iter().enumerate() {
+        to_vector.put(at + offset, val);
     }
 
     Ok(VCell::Void)
